@@ -1384,6 +1384,8 @@ where
     }
 
     fn process_line(&mut self, line: &[u8]) {
+        #[cfg(comrak_verif)]
+        let verif_arg: Option<Vec<u8>> = verif_hooks::tap_active().then(|| line.to_vec());
         let mut new_line: Vec<u8>;
         let line = if line.is_empty() || !strings::is_line_end_char(*line.last().unwrap()) {
             new_line = line.into();
@@ -1419,6 +1421,13 @@ where
         }
 
         self.line_number += 1;
+
+        #[cfg(comrak_verif)]
+        {
+            if let Some(arg) = verif_arg {
+                verif_hooks::tap_record(arg, line, self.offset, self.line_number);
+            }
+        }
 
         let mut all_matched = true;
         if let Some(last_matched_container) = self.check_open_blocks(line, &mut all_matched) {
@@ -3361,5 +3370,65 @@ impl Spx {
             }
         }
         unreachable!();
+    }
+}
+
+/// Verification hooks (only with `--cfg comrak_verif`): a thread-local tap on `process_line`
+/// and a pass-through to `strings::split_off_front_matter`.
+#[cfg(comrak_verif)]
+#[doc(hidden)]
+pub mod verif_hooks {
+    use std::cell::RefCell;
+
+    /// One `process_line` call as seen by the tap.
+    #[derive(Debug, Clone, PartialEq, Eq)]
+    pub struct LineTap {
+        /// the argument `feed`/`finish` passed to `process_line`
+        pub arg: Vec<u8>,
+        /// the line the block parser works on (after the final-newline sentinel)
+        pub line: Vec<u8>,
+        /// `offset` after the byte-order-mark skip
+        pub offset: usize,
+        /// `line_number` of this line (after the increment)
+        pub line_number: usize,
+    }
+
+    thread_local! {
+        static TAP: RefCell<Option<Vec<LineTap>>> = const { RefCell::new(None) };
+    }
+
+    /// Start recording `process_line` calls on this thread (drops an earlier recording).
+    pub fn tap_reset() {
+        TAP.with(|t| *t.borrow_mut() = Some(Vec::new()));
+    }
+
+    /// Stop recording and return the calls recorded since `tap_reset`, in order.
+    pub fn tap_take() -> Vec<LineTap> {
+        TAP.with(|t| t.borrow_mut().take()).unwrap_or_default()
+    }
+
+    /// Is a recording in progress on this thread?
+    pub fn tap_active() -> bool {
+        TAP.with(|t| t.borrow().is_some())
+    }
+
+    /// Called by `process_line`.
+    pub fn tap_record(arg: Vec<u8>, line: &[u8], offset: usize, line_number: usize) {
+        TAP.with(|t| {
+            if let Some(v) = t.borrow_mut().as_mut() {
+                v.push(LineTap {
+                    arg,
+                    line: line.to_vec(),
+                    offset,
+                    line_number,
+                });
+            }
+        });
+    }
+
+    /// `strings::split_off_front_matter`
+    pub fn split_off_front_matter(s: &str, delimiter: &str) -> Option<(String, String)> {
+        crate::strings::split_off_front_matter(s, delimiter)
+            .map(|(a, b)| (a.to_string(), b.to_string()))
     }
 }
